@@ -605,6 +605,58 @@ theorem statesTimesIn_raises (p : Prob) (name : String) (a b : Rat) :
     unfold statesTimesIn
     simp only [hv, htimes, Option.getD_some, Option.bind_some, bind, hw, Option.bind_none]
 
+/-! ## aliases at the accessor level; `extract_results` of constant inputs -/
+
+/-- **A negated alias is transparent for `state_at`**: whatever kind of variable the canonical name is
+    (decision vector, constant input, parameter, unknown), at every time (also before `t0`, with or
+    without history), for both `scaled` and `extrapolate` flags, the value through the negated alias is
+    the negation of the value through a positive name of the same variable; NaN and exceptions coincide. -/
+theorem stateAt_negated_alias (p : Prob) (n m cn : String) (t : Rat) (scaled extrap : Bool)
+    (hn : p.canon n = (cn, false)) (hm : p.canon m = (cn, true)) :
+    stateAt p m t scaled extrap = (stateAt p n t scaled extrap).neg := by
+  unfold stateAt
+  simp only [hn, hm]
+  cases p.svars.lookup cn with
+  | some v => simp [svStateAt, applySign]
+  | none =>
+    cases p.cins.lookup cn with
+    | some ci => exact ciStateAt_neg ci t extrap
+    | none =>
+      cases p.pars.lookup cn with
+      | some q => simp [sgn, Res.neg, Res.map]
+      | none => rfl
+
+/-- **`extract_results` of a constant input is `state_at` at every time stamp** (finding F33 repaired):
+    the array the de-scaling loop of `extract_states` stores (`ciResults`, the array form of `interpolate`
+    with the input's own method and its edge values as fills) holds, entry by entry, the value
+    `state_at(input, t)` returns at the time stamps `ts` it is evaluated on — for any `ts`, on or off the
+    input's own stamps. -/
+theorem ciResults_eq_stateAt (c : CIn) (ts : List Rat) (xs : List XVal) (hs : Sorted c.series)
+    (hm : c.mode ≤ 2) (hne : c.series ≠ []) (h : ciResults c ts = some xs) :
+    xs.map (fun x => ofOut (.val x)) = ts.map (fun t => ciStateAt c false t true) := by
+  unfold ciResults at h
+  rw [C19.interp_array_early_exit_agrees c.mode hm c.series hs hne] at h
+  have h2 := sequence_eq_some _ _ h
+  have h3 := congrArg (List.map ofOut) h2
+  rw [List.map_map, List.map_map] at h3
+  rw [show (fun x => ofOut (Out.val x)) = ofOut ∘ Out.val from rfl, ← h3]
+  apply List.map_congr_left
+  intro t _
+  rw [ciStateAt_eq_extracted c false t hs hm hne]
+  simp [ciExtracted]
+
+/-- … and the array is always defined (never raises, never NaN) under the same hypotheses -/
+theorem ciResults_defined (c : CIn) (ts : List Rat) (hs : Sorted c.series) (hm : c.mode ≤ 2)
+    (hne : c.series ≠ []) : ∃ qs : List Rat, ciResults c ts = some (qs.map XVal.fin) := by
+  unfold ciResults
+  rw [C19.interp_array_early_exit_agrees c.mode hm c.series hs hne]
+  induction ts with
+  | nil => exact ⟨[], rfl⟩
+  | cons t ts ih =>
+    obtain ⟨qs, hq⟩ := ih
+    obtain ⟨q, hq0⟩ := interpCore_finite c.mode hm c.series hne (firstVal c.series) (lastVal c.series) t
+    exact ⟨q :: qs, by simp [List.map_cons, sequence, hq0, hq]⟩
+
 /-! ## Non-vacuity: a concrete problem satisfying the hypotheses used above -/
 
 /-- state `x`: nominal 10, own stamps 3, 4, 5½, raw entries 1, 2, 4, linear mode, a 3-point history
@@ -645,6 +697,19 @@ example : integral exP "x" (some 3) (some 4) = some 15 ∧ integral exP "x" (som
   decide +kernel
 example : windowHist exV false 1 3 = some [(0, 3), (1, 2)]
     ∧ Sorted ([(0, 3), (1, 2)] ++ exV.resultKnots false) := by decide +kernel
+
+-- negated alias of a state, of a constant input and of a parameter (`stateAt_negated_alias`)
+def exP2 : Prob :=
+  ⟨3, [3, 4, 11/2], [("y", ("x", true)), ("nc", ("c", true)), ("np", ("p", true))], [("x", exV)],
+   [("c", ⟨[(3, 1), (4, 2)], 1⟩)], [("p", 2)]⟩
+example : exP2.canon "x" = ("x", false) ∧ exP2.canon "y" = ("x", true) ∧ exP2.canon "c" = ("c", false)
+    ∧ exP2.canon "nc" = ("c", true) := by decide +kernel
+example : stateAt exP2 "nc" (7/2) false true = .num (-1) ∧ stateAt exP2 "np" 0 false true = .num (-2)
+    ∧ stateAt exP2 "y" 2 true true = .num (-3/20) ∧ stateAt exP2 "nc" 5 false false = .nan := by decide +kernel
+-- extract_results of the constant input on the collocation grid (off its own stamps): forward fill
+example : ciResults ⟨[(3, 1), (4, 2)], 1⟩ [3, 7/2, 4, 11/2] = some [XVal.fin 1, XVal.fin 1, XVal.fin 2, XVal.fin 2] := by
+  decide +kernel
+example : Sorted ([(3, 1), (4, 2)] : Knots) := by decide
 
 def exMP : MapProb :=
   ⟨3, [3, 4, 11/2], [⟨exV, 0⟩, ⟨⟨4, [3, 11/2], [1, 3], 1, none, none⟩, 2⟩], [⟨[(3, 1), (4, 2)], 1⟩], [], [2]⟩
